@@ -121,8 +121,10 @@ add("C17", "other",
 
 add("C14", "other",
     "Partial. Proved in Coq about the lexer model (PropC14.v): UTF-8 decoding of ASCII and progress, totality of the state "
-    "functions, continuation of operator runs, and that an emitted token's text and span are the input slice between from and to. "
-    "The whole-stream invariants are not proved; every clause of the property (order, disjoint spans, text = slice, gaps are "
+    "functions, continuation of operator runs, that an emitted token's text and span are the input slice between from and to, and "
+    "for the whole stream of every input (LexerSpans.v, C14_tokens_in_source_order): every token lies inside the input, tokens "
+    "follow each other in source order and never overlap (the two synthetic end tokens carry the empty span). The other "
+    "whole-stream clauses are not proved; every clause of the property (order, disjoint spans, text = slice, gaps are "
     "blanks/comments, longest operator runs, one end-of-line token per line break, EOL+EOF once at the end, layout insensitivity) "
     "is evaluated on the token streams of the real lexer over exhaustive short strings, token soup and random bytes; the lexer "
     "model is compared token for token (kind, text, span, error message) with lexer.Lexer on every input. K4 (decoded \\n in "
